@@ -47,7 +47,7 @@ type healthWorld struct {
 	roots  []atree.SlabID // the root slabs of the top-level containers, known from construction
 }
 
-func must(err error) {
+func hcMust(err error) {
 	if err != nil {
 		panic(err)
 	}
@@ -72,10 +72,10 @@ func buildWorld(seed int64, kind int, committed bool) *healthWorld {
 	case hwEmpty:
 	}
 	if committed {
-		must(w.ps.FastCommit(2))
+		hcMust(w.ps.FastCommit(2))
 		// reopen and load everything
 		w.ps = hx.NewStorage(w.ledger)
-		must(w.ps.BatchPreload(w.ledger.SortedIDs(), 3))
+		hcMust(w.ps.BatchPreload(w.ledger.SortedIDs(), 3))
 	}
 	hx.SortIDs(w.roots)
 	return w
@@ -86,7 +86,7 @@ func buildArrays(rng *rand.Rand, w *healthWorld) {
 	for k := 0; k < nArr; k++ {
 		addr := hx.MkAddr(uint64(1 + rng.Intn(2)))
 		a, err := atree.NewArray(w.ps, addr, hx.TI(7))
-		must(err)
+		hcMust(err)
 		n := rng.Intn(60)
 		if k == 0 {
 			n = 30 + rng.Intn(120)
@@ -96,7 +96,7 @@ func buildArrays(rng *rand.Rand, w *healthWorld) {
 			if rng.Intn(12) == 0 {
 				size = 130 + uint32(rng.Intn(40)) // externalised
 			}
-			must(a.Append(hx.TV{Size: size, Pay: uint64(1000*k + i)}))
+			hcMust(a.Append(hx.TV{Size: size, Pay: uint64(1000*k + i)}))
 		}
 		w.roots = append(w.roots, a.SlabID())
 	}
@@ -121,7 +121,7 @@ func buildMaps(rng *rand.Rand, w *healthWorld, collide bool) {
 			b = collideBuilder(uint64(rng.Int63()), [4]uint64{uint64(3 + rng.Intn(6)), 2, 2, 1 << 62})
 		}
 		m, err := atree.NewMap(w.ps, addr, b, hx.TI(8))
-		must(err)
+		hcMust(err)
 		n := rng.Intn(40)
 		if k == 0 {
 			n = 60 + rng.Intn(140)
@@ -136,7 +136,7 @@ func buildMaps(rng *rand.Rand, w *healthWorld, collide bool) {
 				size = 130 + uint32(rng.Intn(40)) // externalised
 			}
 			_, err := m.Set(hx.CompareKey, hx.HashInput, key, hx.TV{Size: size, Pay: uint64(7000000 + 1000*k + i)})
-			must(err)
+			hcMust(err)
 		}
 		w.roots = append(w.roots, m.SlabID())
 	}
@@ -169,17 +169,17 @@ func nestedChild(rng *rand.Rand, w *healthWorld, addr atree.Address, depth int, 
 	switch rng.Intn(3) {
 	case 0:
 		a, err := atree.NewArray(w.ps, addr, hx.TI(uint64(20+depth)))
-		must(err)
+		hcMust(err)
 		for i, n := 0, 1+rng.Intn(4); i < n; i++ {
-			must(a.Append(elem()))
+			hcMust(a.Append(elem()))
 		}
 		return a
 	case 1:
 		m, err := atree.NewMap(w.ps, addr, atree.NewDefaultDigesterBuilder(), hx.TI(uint64(30+depth)))
-		must(err)
+		hcMust(err)
 		for i, n := 0, 1+rng.Intn(4); i < n; i++ {
 			_, err := m.Set(hx.CompareKey, hx.HashInput, hx.TV{Size: 9, Pay: next()}, elem())
-			must(err)
+			hcMust(err)
 		}
 		return m
 	default:
@@ -188,10 +188,10 @@ func nestedChild(rng *rand.Rand, w *healthWorld, addr atree.Address, depth int, 
 		// map's own root slab stays small (and inlined)
 		salt := uint64(rng.Int63())
 		m, err := atree.NewMap(w.ps, addr, collideBuilder(salt, [4]uint64{1, 1 + uint64(rng.Intn(2)), 1 << 62, 1 << 62}), hx.TI(uint64(40+depth)))
-		must(err)
+		hcMust(err)
 		for i, n := 0, 2+rng.Intn(9); i < n; i++ {
 			_, err := m.Set(hx.CompareKey, hx.HashInput, hx.TV{Size: 9, Pay: next()}, hx.TV{Size: uint32(10 + rng.Intn(25)), Pay: next()})
-			must(err)
+			hcMust(err)
 		}
 		return m
 	}
@@ -205,7 +205,7 @@ func buildNested(rng *rand.Rand, w *healthWorld) {
 		n := 8 + rng.Intn(20)
 		if k%2 == 0 {
 			parent, err := atree.NewArray(w.ps, addr, hx.TI(7))
-			must(err)
+			hcMust(err)
 			for i := 0; i < n; i++ {
 				var v atree.Value
 				switch rng.Intn(5) {
@@ -220,12 +220,12 @@ func buildNested(rng *rand.Rand, w *healthWorld) {
 				default:
 					v = nestedChild(rng, w, addr, 2, &pay)
 				}
-				must(parent.Append(v))
+				hcMust(parent.Append(v))
 			}
 			w.roots = append(w.roots, parent.SlabID())
 		} else {
 			parent, err := atree.NewMap(w.ps, addr, atree.NewDefaultDigesterBuilder(), hx.TI(8))
-			must(err)
+			hcMust(err)
 			for i := 0; i < n; i++ {
 				pay++
 				key := hx.TV{Size: 9, Pay: pay}
@@ -234,7 +234,7 @@ func buildNested(rng *rand.Rand, w *healthWorld) {
 					v = hx.SomeValue{V: v}
 				}
 				_, err := parent.Set(hx.CompareKey, hx.HashInput, key, v)
-				must(err)
+				hcMust(err)
 			}
 			w.roots = append(w.roots, parent.SlabID())
 		}
@@ -448,7 +448,7 @@ func healthStream(cfg *Config) *hx.Stats {
 		h0 := liveHeap(hw.ps, diff)
 		if kind == hwNested || kind == hwCollide || kind == hwMaps {
 			for _, s := range h0 {
-				sl := mustSlab(hw.ps, s.id)
+				sl := hcSlab(hw.ps, s.id)
 				st.Hit(fmt.Sprintf("slab:%T", sl))
 				for _, c := range dumpCases(sl) {
 					st.Hit("case:" + c)
@@ -510,8 +510,8 @@ func healthStream(cfg *Config) *hx.Stats {
 		for _, id := range pick(nonRoots, 4) {
 			x := build()
 			b, err := atree.NewArray(x.ps, id.Address(), hx.TI(9))
-			must(err)
-			must(b.Append(RefV{id}))
+			hcMust(err)
+			hcMust(b.Append(RefV{id}))
 			runCheck(p, "double-reference@"+hx.IDStr(id), x, nr+1, "TwoParents", "double-reference")
 			runCheck(p, "double-reference-nocount@"+hx.IDStr(id), x, -1, "TwoParents", "double-reference")
 		}
@@ -520,10 +520,10 @@ func healthStream(cfg *Config) *hx.Stats {
 		for variant := 0; variant < 3; variant++ {
 			x := build()
 			ref, err := atree.NewStorableSlab(x.ps, hx.MkAddr(1), hx.TV{Size: 20, Pay: 777}, 20)
-			must(err)
+			hcMust(err)
 			target := atree.SlabID(ref.(atree.SlabIDStorable))
 			b, err := atree.NewArray(x.ps, hx.MkAddr(1), hx.TI(9))
-			must(err)
+			hcMust(err)
 			_ = b.Append(hx.TV{Size: 5, Pay: 1})
 			switch variant {
 			case 0:
@@ -545,8 +545,8 @@ func healthStream(cfg *Config) *hx.Stats {
 			x := build()
 			other := hx.MkAddr(uint64(3 + rng.Intn(3)))
 			b, err := atree.NewArray(x.ps, other, hx.TI(9))
-			must(err)
-			must(b.Append(RefV{id}))
+			hcMust(err)
+			hcMust(b.Append(RefV{id}))
 			exp, want := nr+1, "TwoParents"
 			if isRoot[id] {
 				exp, want = nr, "Owner"
@@ -562,15 +562,15 @@ func healthStream(cfg *Config) *hx.Stats {
 			home := hx.MkAddr(1)
 			other := hx.MkAddr(uint64(3 + rng.Intn(3)))
 			b, err := atree.NewArray(x.ps, home, hx.TI(9))
-			must(err)
+			hcMust(err)
 			for j := 0; j < 3; j++ {
 				a := home
 				if j == pos {
 					a = other
 				}
 				ref, err := atree.NewStorableSlab(x.ps, a, hx.TV{Size: 20, Pay: uint64(900 + j)}, 20)
-				must(err)
-				must(b.Append(RefV{atree.SlabID(ref.(atree.SlabIDStorable))}))
+				hcMust(err)
+				hcMust(b.Append(RefV{atree.SlabID(ref.(atree.SlabIDStorable))}))
 			}
 			runCheck(p, fmt.Sprintf("foreign-owner-sibling%d", pos), x, nr+1, "Owner", "foreign-owner")
 		}
@@ -601,7 +601,7 @@ func healthStream(cfg *Config) *hx.Stats {
 						}
 					}
 				}
-				must(x.ps.BatchPreload(load, 2))
+				hcMust(x.ps.BatchPreload(load, 2))
 				runIter(p, label, x)
 				curProg = p
 				sd, sc, sb := storageState(x.ps, x.ledger, diff)
@@ -631,9 +631,9 @@ func healthStream(cfg *Config) *hx.Stats {
 				x := build()
 				id := nonRoots[rng.Intn(len(nonRoots))]
 				b, err := atree.NewArray(x.ps, id.Address(), hx.TI(9))
-				must(err)
-				must(b.Append(RefV{id}))
-				must(x.ps.FastCommit(1))
+				hcMust(err)
+				hcMust(b.Append(RefV{id}))
+				hcMust(x.ps.FastCommit(1))
 				x.ps = hx.NewStorage(x.ledger)
 				var load []atree.SlabID
 				for _, l := range x.ledger.SortedIDs() {
@@ -641,7 +641,7 @@ func healthStream(cfg *Config) *hx.Stats {
 						load = append(load, l)
 					}
 				}
-				must(x.ps.BatchPreload(load, 2))
+				hcMust(x.ps.BatchPreload(load, 2))
 				runIter(p, "lazy-double-reference@"+hx.IDStr(id), x)
 				sd, sc, sb := storageState(x.ps, x.ledger, diff)
 				_, err = atree.CheckStorageHealth(x.ps, -1)
@@ -736,7 +736,7 @@ func dumpCases(s atree.Slab) []string {
 	return out
 }
 
-func mustSlab(ps *atree.PersistentSlabStorage, id atree.SlabID) atree.Slab {
+func hcSlab(ps *atree.PersistentSlabStorage, id atree.SlabID) atree.Slab {
 	s, _, _ := ps.Retrieve(id)
 	return s
 }
@@ -747,14 +747,14 @@ func buildCycle() (*atree.PersistentSlabStorage, atree.SlabID) {
 	ps := hx.NewStorage(hx.NewLedger())
 	addr := hx.MkAddr(1)
 	a, err := atree.NewArray(ps, addr, hx.TI(1))
-	must(err)
+	hcMust(err)
 	b, err := atree.NewArray(ps, addr, hx.TI(2))
-	must(err)
+	hcMust(err)
 	l, err := atree.NewStorableSlab(ps, addr, hx.TV{Size: 20, Pay: 1}, 20)
-	must(err)
-	must(a.Append(RefV{b.SlabID()}))
-	must(a.Append(RefV{atree.SlabID(l.(atree.SlabIDStorable))}))
-	must(b.Append(RefV{a.SlabID()}))
+	hcMust(err)
+	hcMust(a.Append(RefV{b.SlabID()}))
+	hcMust(a.Append(RefV{atree.SlabID(l.(atree.SlabIDStorable))}))
+	hcMust(b.Append(RefV{a.SlabID()}))
 	return ps, a.SlabID()
 }
 
@@ -774,17 +774,17 @@ func healthCycleChild(cfg *Config) *hx.Stats {
 		ps := hx.NewStorage(ledger)
 		addr := hx.MkAddr(1)
 		a, err := atree.NewArray(ps, addr, hx.TI(1))
-		must(err)
+		hcMust(err)
 		b, err := atree.NewArray(ps, addr, hx.TI(2))
-		must(err)
+		hcMust(err)
 		r, err := atree.NewArray(ps, addr, hx.TI(3))
-		must(err)
-		must(a.Append(RefV{b.SlabID()}))
-		must(b.Append(RefV{a.SlabID()}))
-		must(r.Append(RefV{a.SlabID()}))
-		must(ps.FastCommit(1))
+		hcMust(err)
+		hcMust(a.Append(RefV{b.SlabID()}))
+		hcMust(b.Append(RefV{a.SlabID()}))
+		hcMust(r.Append(RefV{a.SlabID()}))
+		hcMust(ps.FastCommit(1))
 		ps = hx.NewStorage(ledger)
-		must(ps.BatchPreload([]atree.SlabID{r.SlabID()}, 1))
+		hcMust(ps.BatchPreload([]atree.SlabID{r.SlabID()}, 1))
 		_, err = ps.SlabIterator()
 		fmt.Printf("RETURNED iter err=%v\n", err)
 	}
